@@ -181,6 +181,10 @@ def oracle_load(ctx: Ctx, eng, rec: morph.LoadRecord):
     ev = morph.enc(rec.datum)
     if morph.has_iter(ev) and morph.spec_has_union(rec.spec):
         return
+    if morph.numeric_mix(rec.spec.ty):
+        # Decimal(1) / complex(1) merge with 1 / 1.0 inside a set or as dict keys: the encoded documented value keeps them apart
+        ctx.dist["spec:numeric-mix-in-set"] += 1
+        return
     for strict in (True, False):
         real = rec.real[("DISABLE", strict)]
         if real["r"] in ("escape", "no-loader"):
@@ -259,7 +263,20 @@ def union_dump_oracle(ctx: Ctx, eng, rec):
     """documented: a union is dumped by the runtime class of the value, falling back to the NEAREST ancestor among the cases.
     Checked for top-level unions whose cases are keyed by classes: the union dumper must give what the dumper of that case gives"""
     spec, x = rec["spec"], rec["value"]
-    if spec.kind != "union" or rec["origin"] != "typed" or any(c.kind == "literal" for c in spec.children):
+    if spec.kind != "union" or rec["origin"] != "typed":
+        return
+    members = getattr(spec, "literal_members", None)
+    if members is not None and any(type(x) is type(v) and x == v for v in members):
+        # a member of one of the Literal hints of the union: dumped by the Literal rule (as is for None/bool/int/str values)
+        ctx.note_case({"t": spec.ty, "x": morph.enc(x)}, nontrivial=True, kind="union-dump:literal-member")
+        for m in morph.MODES:
+            got = rec["real"][m]
+            if got["r"] != "ok" or got["v"] != morph.canon_val(morph.enc(x)):
+                ctx.fail("union-dump:literal-member", f"[{m}] the member {x!r} of a Literal hint of {repr(spec.hint)[:140]} is not dumped "
+                         f"as is: {str(got)[:120]}", {"hint": repr(spec.hint)[:300], "value": morph.enc(x), "mode": m, "got": got})
+                return
+        return
+    if any(c.kind == "literal" for c in spec.children):
         return
     table = {}
     for i, k in enumerate(spec.key_classes):
@@ -334,7 +351,7 @@ def newtype_probes(ctx: Ctx, eng):
 
 def run(ctx: Ctx):
     eng = morph.Engine(ctx)
-    specs = eng.gen_specs(ctx.budget(180, 2500), 3 if ctx.tier == "quick" else 4, related=True)
+    specs = eng.gen_specs(ctx.budget(180, 2500), 3 if ctx.tier == "quick" else 4, related=True, literal_unions=True)
     recs = eng.load_records(specs, suite="load", n_valid=2, n_corrupt=3, n_hostile=3)
     for rec in recs:
         ill = rec.origin != "valid"
@@ -368,7 +385,7 @@ def run(ctx: Ctx):
 def search(ctx: Ctx):
     eng = morph.Engine(ctx)
     eng.drv = None
-    specs = eng.gen_specs(2000, 4, related=True)
+    specs = eng.gen_specs(2000, 4, related=True, literal_unions=True)
     for rec in eng.load_records(specs, n_valid=2, n_corrupt=4, n_hostile=4):
         oracle_load(ctx, eng, rec)
     builtin_subclass_union_probes(ctx, eng)
